@@ -30,6 +30,7 @@ type cfg struct {
 	c13      bool  // checkpoint / rollback ops and oracle
 	maxNoDup int   // depth used when the dump is unavailable
 	alt      bool  // mutate through Put / Delete instead of Update
+	faults   bool  // updates/deletes with an injected storage read error are part of the alphabet
 	snap     []int // collapse levels of the snapshot op (CopyRoot); enables updates/deletes through the snapshot
 }
 
@@ -54,7 +55,12 @@ func (c cfg) ops() []Op {
 		ops = append(ops, Op{K: 'R'})
 	}
 	if c.c13 {
-		ops = append(ops, Op{K: 'P'}, Op{K: 'B'}, Op{K: 'T'})
+		ops = append(ops, Op{K: 'P'}, Op{K: 'B'}, Op{K: 'T'}, Op{K: 'Q'})
+	}
+	if c.faults {
+		for _, k := range c.keys {
+			ops = append(ops, Op{K: 'u', Key: k, Val: c.vals[len(c.vals)-1]}, Op{K: 'x', Key: k})
+		}
 	}
 	for _, l := range c.snap {
 		ops = append(ops, Op{K: 'Y', Level: l})
@@ -118,7 +124,7 @@ func runCfg(rep *rt.Report, c cfg, deadline time.Time, classify func(w *World, l
 				}
 				return snap
 			}
-			if k != 'L' && k != 'P' && k != 'B' && k != 'T' {
+			if k != 'L' && k != 'P' && k != 'B' && k != 'T' && k != 'Q' {
 				return true
 			}
 			// reload / checkpoint / rollback only when nothing is pending since the last commit
@@ -136,7 +142,7 @@ func runCfg(rep *rt.Report, c cfg, deadline time.Time, classify func(w *World, l
 					gcAfter++
 				case 'P':
 					chk, since = true, 0
-				case 'B', 'T':
+				case 'B', 'T', 'Q':
 					rolled = true
 				}
 			}
@@ -161,13 +167,16 @@ func runCfg(rep *rt.Report, c cfg, deadline time.Time, classify func(w *World, l
 				}
 				return classify(w, last, f)
 			}
+			if w.Unjudged {
+				return seq.Outcome{Cut: true}
+			}
 			key := w.Key()
 			if c.c11 || c.c13 {
 				if f := c11Oracle(w, last); f != "" {
 					return classify(w, last, f)
 				}
 			}
-			if c.c13 && (last.K == 'B' || last.K == 'T') {
+			if c.c13 && (last.K == 'B' || last.K == 'T' || last.K == 'Q') {
 				if f := c13Oracle(w, last); f != "" {
 					return classify(w, last, f)
 				}
@@ -219,6 +228,8 @@ func C09(tier rt.Tier) int {
 		runs = []cfg{
 			{name: "6keys-mem+commit", keys: []int{0, 1, 2, 3, 4, 5}, vals: []string{"a", "b"}, levels: []int{0, 2, 64}, gc: true, reload: true, rootOp: true, depth: 4, maxNoDup: 3},
 			{name: "3keys-deep", keys: []int{0, 1, 2}, vals: []string{"a", "b", "c"}, levels: []int{0, 1, 3}, gc: true, reload: true, rootOp: true, depth: 6, maxNoDup: 4},
+			// operations that fail with a storage read error (collapsed nodes must be loaded) leave the trie as it was
+			{name: "3keys-read-faults", keys: []int{0, 1, 4}, vals: []string{"a", "b"}, levels: []int{0, 1}, reload: true, faults: true, depth: 5, maxNoDup: 4},
 			// the other exported mutators
 			{name: "3keys-put-delete", keys: []int{0, 1, 4}, vals: []string{"a", "b"}, levels: []int{0, 2}, gc: true, reload: true, alt: true, depth: 5, maxNoDup: 4},
 			// a snapshot of the committed trie is a trie of its own: source and snapshot are then changed independently
@@ -229,6 +240,7 @@ func C09(tier rt.Tier) int {
 		runs = []cfg{
 			{name: "6keys-mem+commit", keys: []int{0, 1, 2, 3, 4, 5}, vals: []string{"a", "b"}, levels: []int{0, 1, 2, 3, 64}, gc: true, reload: true, rootOp: true, depth: 6, maxNoDup: 4},
 			{name: "3keys-deep", keys: []int{0, 1, 2}, vals: []string{"a", "b", "c"}, levels: []int{0, 1, 2, 3, 64}, gc: true, reload: true, rootOp: true, depth: 9, maxNoDup: 5},
+			{name: "4keys-read-faults", keys: []int{0, 1, 2, 4}, vals: []string{"a", "b"}, levels: []int{0, 1, 2}, reload: true, faults: true, depth: 7, maxNoDup: 5},
 			{name: "4keys-put-delete", keys: []int{0, 1, 2, 4}, vals: []string{"a", "b"}, levels: []int{0, 1, 64}, gc: true, reload: true, alt: true, depth: 7, maxNoDup: 5},
 			{name: "snapshot-4keys", keys: []int{0, 1, 2, 4}, vals: []string{"a", "b"}, levels: []int{0, 1, 64}, snap: []int{0, 1, 2, 64}, depth: 8, maxNoDup: 5},
 		}
@@ -237,10 +249,10 @@ func C09(tier rt.Tier) int {
 		runCfg(rep, c, time.Now().Add(per), plainClassify)
 	}
 	if rt.Replay == nil || rt.Replay.Run == "width" {
-		wideCases(rep, tier)
+		wideCases(rep, tier, []int{0, 1, 2}, false)
 	}
 	rep.Set("dedup", haveDump)
-	rep.Set("rule", "BFS over all histories of {Update(k,v,weight(v)), delete (in the put-delete runs through Put and Delete, whose reported released weight is judged), Commit(level)+batch.Commit for the listed collapse levels, DeleteNodes, reload from (root hash, weight), Root(), and in the snapshot runs: snapshot = New(CopyRoot(level)) of the committed trie, updates/deletes through the snapshot} over 32-byte keys sharing prefixes of 63/3/2/1/0 nibbles; after every operation on a throw-away replay: Weight() = sum of live weights, Root() = independent root, for EVERY block 1..W GetBlockProof returns the cumulative-weight owner and the proof verifies to (root, owner's value); delete of an absent key must return ErrNotFound; a snapshot is judged like the trie itself against the content it was taken with plus its own later writes; states merged on model + dumped trie structure (dirty/collapsed flags, GC sets) + storage keys")
+	rep.Set("rule", "BFS over all histories of {Update(k,v,weight(v)), delete (in the put-delete runs through Put and Delete, whose reported released weight is judged), Commit(level)+batch.Commit for the listed collapse levels, DeleteNodes, reload from (root hash, weight), Root(), and in the snapshot runs: snapshot = New(CopyRoot(level)) of the committed trie, updates/deletes through the snapshot} over 32-byte keys sharing prefixes of 63/3/2/1/0 nibbles; after every operation on a throw-away replay: Weight() = sum of live weights, Root() = independent root, for EVERY block 1..W GetBlockProof returns the cumulative-weight owner and the proof verifies to (root, owner's value); delete of an absent key must return ErrNotFound; in the read-fault runs an update/delete whose first storage read fails must either report an error and leave the trie as it was or succeed completely; a snapshot is judged like the trie itself against the content it was taken with plus its own later writes; states merged on model + dumped trie structure (dirty/collapsed flags, GC sets) + storage keys")
 	rep.Assumption("storage is an in-memory StorageAdapter with atomic batches; Pebble itself is not under test")
 	return rep.Finish()
 }
@@ -250,7 +262,7 @@ func C09(tier rt.Tier) int {
 // pair of the 16 nibble values, every 15-subset and the full set, in memory and committed+reloaded;
 // after building, after a delete and after an update the trie is judged like every BFS state (weight,
 // root vs the independent model, owner of every block, verifying proofs).
-func wideCases(rep *rt.Report, tier rt.Tier) {
+func wideCases(rep *rt.Report, tier rt.Tier, modes []int, gc bool) {
 	type wcase struct {
 		pos    int
 		nibs   []int
@@ -273,7 +285,7 @@ func wideCases(rep *rt.Report, tier rt.Tier) {
 	}
 	var cases []wcase
 	for _, pos := range []int{0, 1, 62, 63} {
-		for mode := 0; mode < 3; mode++ {
+		for _, mode := range modes {
 			for i := 0; i < 16; i++ {
 				for j := i + 1; j < 16; j++ {
 					cases = append(cases, wcase{pos: pos, nibs: []int{i, j}, mode: mode}, wcase{pos: pos, nibs: []int{j, i}, mode: mode})
@@ -326,6 +338,17 @@ func wideCases(rep *rt.Report, tier rt.Tier) {
 				}
 				if err := b.Commit(false); err != nil {
 					return "batch.Commit: " + err.Error()
+				}
+				if gc {
+					// two collection passes after the commit, then the committed state must be recoverable from storage alone
+					for pass := 0; pass < 2; pass++ {
+						if err := t.DeleteNodes(); err != nil {
+							return "DeleteNodes: " + err.Error()
+						}
+					}
+					if f := Observe(Reopened(s, m.Root(), m.Total()), m, true); f != "" {
+						return fmt.Sprintf("after the commit and two DeleteNodes passes, a trie reopened from root %x / weight %d: %s", m.Root()[:6], m.Total(), f)
+					}
 				}
 				if c.mode == 1 {
 					t = Reopened(s, m.Root(), m.Total())
